@@ -6,13 +6,13 @@ PROP = {
     "level": "exploration",
     "technique": "runtime monitor with reference model: scoping oracle over the generator's own AST (validated per program against the luars Lua 5.5 VM) vs SemanticModel::find_decl on every name token",
     "design_ref": "§4 C13",
-    "rule": "case = G-scope program (12-45 statements over the names a,b,c,d: local lists with duplicates and <const>, multi-assignment, local function, "
+    "rule": "case = G-scope program (16 x 2500 quick / 16 x 100000 thorough; 12-45 statements over the names a,b,c,d: local lists with duplicates and <const>, multi-assignment, local function, "
             "function statements incl. a.b / a:m, closures with parameters, numeric and generic for, repeat-until, while, do, if/elseif/else, return, break); "
             "each program is first executed in luars in 'xcheck' form (declarations bound to distinct integers, uses recorded) and the oracle must agree with luars on every executed use; "
             "distinct = FNV of the sorted multiset of (use slot, kind of declaration it binds to); "
             "non-trivial = >= 10 name uses and >= 1 use that is shadowing-sensitive (another declaration of the same name is visible, or the use sits in a for header / "
             "generic-for explist / until condition / local right-hand side / the body of its own local function)",
-    "min_nontrivial": {"quick": 6000, "thorough": 200000},
+    "min_nontrivial": {"quick": 3000, "thorough": 100000},
     "max_secs": {"quick": 60, "thorough": 900},
     "require_clauses": ["xcheck:uses-confirmed-by-luars", "binding:uses-compared"],
     "assumptions": COMMON_ASSUME + [
